@@ -40,8 +40,8 @@ M = [
   ["C14"], "existing array padded one short"),
  ("copy-limit-ge", V5, "*accumulatedCopySize > options.AccumulatedCopySizeLimit {", "*accumulatedCopySize >= options.AccumulatedCopySizeLimit {",
   ["C12"], "limit reached exactly is treated as exceeded"),
- ("copy-size-always-escaped", V5, "\ta, err := json.MarshalEscaped(src, options.EscapeHTML)\n\tif err != nil {\n\t\treturn nil, 0, err\n\t}\n\tsz := len(a)",
-  "\ta, err := json.MarshalEscaped(src, options.EscapeHTML)\n\tif err != nil {\n\t\treturn nil, 0, err\n\t}\n\tsz := len(a)\n\tif !options.EscapeHTML {\n\t\tif b, err := json.Marshal(src); err == nil {\n\t\t\tsz = len(b)\n\t\t}\n\t}",
+ ("copy-size-always-escaped", V5, "\tsz := len(a)\n\treturn newLazyNode(newRawMessage(a)), sz, nil",
+  "\tsz := len(a)\n\tif !options.EscapeHTML {\n\t\tif b, err := json.Marshal(src); err == nil {\n\t\t\tsz = len(b)\n\t\t}\n\t}\n\treturn newLazyNode(newRawMessage(a)), sz, nil",
   ["C12"], "copy size measured with HTML escaping although EscapeHTML is off"),
  ("intodoc-opts-dropped", V5, "\tn.doc.opts = options\n\tif err != nil {\n\t\treturn nil, err\n\t}\n\n\tn.which = eDoc", "\tif err != nil {\n\t\treturn nil, err\n\t}\n\n\tn.which = eDoc",
   ["C15"], "nested objects visited by an operation lose the EscapeHTML option"),
